@@ -29,8 +29,8 @@ def run(ctx):
     for m in (("gap2", "noswap", "skip0") if T else ("gap2", "skip0")):
         ctx.tlc_mc("MC_PortUnion", "MC_PortUnion_mut_%s.cfg" % m, expect_violation=True, workers=4)
     ctx.tlc_mc("MC_UDPHop", "MC_UDPHop_big.cfg" if T else "MC_UDPHop.cfg", coverage=T, timeout=1500, workers=16 if T else 8)
-    hop_muts = ("keepprev", "failclosesprev", "closeskipsprev", "writeprev", "anyport", "readclosed", "nounblock", "latecheck")
-    for m in (hop_muts if T else ("keepprev", "readclosed")):
+    hop_muts = ("keepprev", "failclosesprev", "closeskipsprev", "writeprev", "anyport", "readclosed", "nounblock", "latecheck", "wunlocked")
+    for m in (hop_muts if T else ("keepprev", "wunlocked")):
         ctx.tlc_mc("MC_UDPHop", "MC_UDPHop_mut_%s.cfg" % m, expect_violation=True, workers=4)
     # ---- scenarios
     ctx.write_scenarios("portunion", ctx.tlc_gen("MC_PortUnion", "Gen_PortUnion.cfg", bfs=True))
